@@ -57,7 +57,7 @@ func (c12) Runs(t Tier) int {
 }
 func (c12) RecordWidths() map[string]int { return nil }
 func (c12) RequiredProbes() []string {
-	return []string{"missing-interior-file-block", "missing-last-leaf", "missing-first-leaf", "missing-last-link-shard", "missing-nested-shard", "lookup-blocked", "lookup-not-blocked-under-fault", "kth-load-transient", "subset-fault", "hamt-depth>=3", "dedup-file-block-faulted", "missing-empty-block", "repeated-lookups-same-node", "file-reread-after-recovery", "iterate-again-after-recovery", "well-known-error-value", "file-without-blocksizes", "seek-then-read-under-fault", "store-goes-away-at-load-k", "preload-under-fault", "linksystem-with-node-reifier"}
+	return []string{"missing-interior-file-block", "missing-last-leaf", "missing-first-leaf", "missing-last-link-shard", "missing-nested-shard", "lookup-blocked", "lookup-not-blocked-under-fault", "kth-load-transient", "subset-fault", "hamt-depth>=3", "dedup-file-block-faulted", "missing-empty-block", "repeated-lookups-same-node", "file-reread-after-recovery", "iterate-again-after-recovery", "well-known-error-value", "file-without-blocksizes", "seek-then-read-under-fault", "store-goes-away-at-load-k", "trusted-storage", "preload-under-fault", "linksystem-with-node-reifier"}
 }
 
 type c12Scenario struct {
@@ -205,7 +205,7 @@ func isLoadError(err error) bool {
 		return true
 	}
 	msg := err.Error()
-	return strings.Contains(msg, "simstore injected") || strings.Contains(msg, "hash mismatch") || strings.Contains(msg, "/blocks/") || strings.Contains(msg, "deadline exceeded") || strings.Contains(msg, "unexpected EOF")
+	return strings.Contains(msg, "simstore injected") || strings.Contains(msg, "hash mismatch") || strings.Contains(msg, "/blocks/") || strings.Contains(msg, "deadline exceeded") || strings.Contains(msg, "unexpected EOF") || strings.Contains(msg, "context canceled") || strings.HasSuffix(msg, ": skip") || msg == "skip"
 }
 
 func isNotFoundResult(err error) bool {
@@ -285,6 +285,10 @@ func (c12) runFile(ts *tape.Set, tier Tier) *Result {
 	nodeReifier := shape.Intn(3) == 2
 	if nodeReifier {
 		res.probe("linksystem-with-node-reifier")
+	}
+	trusted := subsetSeed%5 == 4 // LinkSystem.TrustedStorage: no hash check, so no "corrupt" plans in this run
+	if trusted {
+		res.probe("trusted-storage")
 	}
 
 	st := store.New()
@@ -397,7 +401,7 @@ func (c12) runFile(ts *tape.Set, tier Tier) *Result {
 		if p != nil {
 			hits = p.install(st)
 		}
-		w := newWorld(st, false, nodeReifier)
+		w := newWorld(st, trusted, nodeReifier)
 		br := tape.NewSplitMix(bufSeed)
 		panicked, site, pmsg = guard(func() {
 			n, how, err := openFile(w, root, via)
@@ -504,6 +508,15 @@ func (c12) runFile(ts *tape.Set, tier Tier) *Result {
 			tg = append(tg, blocks[int(sr.Next()%uint64(len(blocks)))])
 		}
 		plans = append(plans, faultPlan{kind: faultKinds[int(sr.Next()%4)], targets: tg, kth: -1, after: int(sr.Next() & 0xffff)})
+	}
+	if trusted {
+		kept := plans[:0]
+		for _, p := range plans {
+			if p.kind != store.Corrupt {
+				kept = append(kept, p)
+			}
+		}
+		plans = kept
 	}
 	sc.Plans = len(plans)
 
